@@ -577,7 +577,7 @@ func c30Run(c *fw.Ctx) {
 
 func init() {
 	fw.Register(&fw.Check{
-		ID: "C30",
+		ID:   "C30",
 		Rule: "case 0: the three shipped grammars with writeBison (test, tm, js) regenerated in-process; other cases: batches of featgram grammars (mid-rule actions, lookahead nonterminals, sets, lists, templates, %prec, state markers, several inputs) under C17's option vectors with writeBison forced on. For each, the written <name>.y is read by an independent reader and compared with the productions (LHS, RHS symbols, %prec) in order and the precedence groups in order of the grammar model the LALR tables were built from, plus %token/%start declarations. Non-trivial = an export with at least one rule compared; distinct = distinct (export text hash, rule count, precedence group count)",
 		Assumptions: []string{
 			"grammar.Parser.Rules / Parser.Prec are what lalr.Compile received (they are copied verbatim into lalr.Grammar in compiler.generateTables)",
